@@ -157,3 +157,44 @@ package runtime
 //@ invariant[C03] ncalls(RunStmts) == 0 && ncalls(RunStmt) == tomath(rangeindex) + 1 && ncalls(condTrue) == tomath(rangeindex) + 1
 //@ invariant[C03] forall k mathint :: 0 <= k && k < ncalls(condTrue) ==> !callres(condTrue, k, 0) && callarg(condTrue, k, 0) == callres(RunStmt, k, 0) && callarg(condTrue, k, 1) == callres(RunStmt, k, 1)
 //@ invariant[C03] forall k mathint :: 0 <= k && k < ncalls(RunStmt) ==> callarg(RunStmt, k, 1) == stmt.IfList[k].Condition
+
+// ---- C03: the scope chain -----------------------------------------------------------------------
+// "An assignment updates the nearest enclosing variable of that name or else creates one local to the
+// current block": stated exactly for the current scope and its parent (the chain is a linked list; the
+// statement for an arbitrary depth would need a recursive definition of `nearest`), and for every depth
+// in the form that matters to the other variables: a write never removes or re-points any entry of any
+// scope, adds at most the entry for this name to the current scope, and leaves every variable object
+// either untouched or holding exactly the assigned value.
+//@ spec varbIs(w *Varb, v any, t ast.DType) bool = w != nil && w.Value == v && w.DType == t
+//@ func (*Stack).Set
+//@ ensures[C03] forall q map[string]*Varb :: (forall k string :: old(dom(q, k)) ==> dom(q, k) && q[k] == old(q[k]))
+//@ ensures[C03] forall q map[string]*Varb :: (forall k string :: dom(q, k) && !old(dom(q, k)) ==> q == stack.Data && k == key && fresh(q[k]) && varbIs(q[k], value, dType))
+//@ ensures[C03] forall w *Varb :: w != nil && !fresh(w) ==> (w.Value == old(w.Value) && w.DType == old(w.DType)) || (w.Value == value && w.DType == dType)
+//@ ensures[C03] old(dom(stack.Data, key)) ==> varbIs(stack.Data[key], value, dType) && (forall q map[string]*Varb :: (forall k string :: dom(q, k) == old(dom(q, k)))) && (forall w *Varb :: w != nil && w != stack.Data[key] ==> w.Value == old(w.Value) && w.DType == old(w.DType))
+//@ ensures[C03] !old(dom(stack.Data, key)) && stack.Before != nil && old(dom(stack.Before.Data, key)) ==> varbIs(stack.Before.Data[key], value, dType) && (forall q map[string]*Varb :: (forall k string :: dom(q, k) == old(dom(q, k)))) && (forall w *Varb :: w != nil && w != stack.Before.Data[key] ==> w.Value == old(w.Value) && w.DType == old(w.DType))
+//@ ensures[C03] !old(dom(stack.Data, key)) && stack.Before == nil ==> dom(stack.Data, key) && fresh(stack.Data[key]) && varbIs(stack.Data[key], value, dType) && (forall w *Varb :: w != nil && !fresh(w) ==> w.Value == old(w.Value) && w.DType == old(w.DType))
+//@ loop 1
+//@ invariant[C03] cur != stack ==> !dom(stack.Data, key) && stack.Before != nil
+//@ invariant[C03] cur != stack && cur != stack.Before ==> !dom(stack.Before.Data, key)
+
+// a read finds the entry of the nearest scope that has one (exact for the current scope and its parent)
+//@ func (*Stack).Get
+//@ ensures[C03] dom(stack.Data, key) ==> result1 == nil && result0 == stack.Data[key]
+//@ ensures[C03] !dom(stack.Data, key) && stack.Before == nil ==> result1 != nil
+//@ ensures[C03] !dom(stack.Data, key) && stack.Before != nil && dom(stack.Before.Data, key) ==> result1 == nil && result0 == stack.Before.Data[key]
+//@ ensures[C03] !dom(stack.Data, key) && stack.Before != nil && !dom(stack.Before.Data, key) && stack.Before.Before == nil ==> result1 != nil
+//@ loop 1
+//@ invariant[C03] cur != stack ==> !dom(stack.Data, key) && stack.Before != nil
+//@ invariant[C03] cur != stack && cur != stack.Before ==> !dom(stack.Before.Data, key) && stack.Before.Before != nil
+
+// leaving a block empties its scope and only its scope
+//@ func (*Stack).Clear
+//@ ensures[C03] forall k string :: !dom(stack.Data, k)
+//@ ensures[C03] forall q map[string]*Varb :: (forall k string :: q != stack.Data ==> dom(q, k) == old(dom(q, k)) && q[k] == old(q[k]))
+//@ loop 1
+//@ invariant[C03] forall q map[string]*Varb :: (forall k string :: q != stack.Data ==> dom(q, k) == old(dom(q, k)) && q[k] == old(q[k]))
+//@ invariant[C03] forall k string :: iterseen(k) ==> !dom(stack.Data, k)
+
+// an assignment to a name goes to the scope chain of the current block (`_` is the message)
+//@ func (*Task).SetVarb
+//@ ensures[C03] result == nil && ncalls((*Stack).Set) == 1 && callarg((*Stack).Set, 0, 0) == ctx.stackCur && callarg((*Stack).Set, 0, 1) == (key == "_" ? "message" : key) && callarg((*Stack).Set, 0, 2) == value && callarg((*Stack).Set, 0, 3) == dtype
